@@ -97,6 +97,10 @@ def c12op (op : String) (a b : Len Float) : String :=
               let d ← Len.sub a b
               pure (decide (0 < d.amount))))
   | "eq" => "OK B " ++ (if Len.eq 1e-12 a b then "1" else "0")
+  | "eqnum" => "OK B " ++ (if Len.eqNum 1e-12 a b.amount then "1" else "0")
+  -- reflected operators: `other - self` is `(-self) + other`, `other + self` is `self + other`
+  | "rsub" => fmtPy fmtLen (Len.add (Len.neg b) a)
+  | "radd" => fmtPy fmtLen (Len.add b a)
   | _ => "bad-op"
 
 -- ---------------------------------------------------------------- C13
